@@ -179,7 +179,14 @@ def can_schema(draw, cfg: Optional[CanCfg] = None) -> M.Schema:
     # bindings
     used_ids: set = set()
     used_names: set = set()
-    buses = draw(st.lists(bus_name, min_size=0, max_size=3, unique=True)) if cfg.buses else []
+    buses = draw(st.lists(bus_name | st.from_regex(r"[A-Za-z][A-Za-z0-9]{0,3}", fullmatch=True).filter(lambda x: x.lower() != "default"),
+                          min_size=0, max_size=3, unique=True)) if cfg.buses else []
+    if buses and draw(st.integers(0, 2)) == 0:
+        # two buses whose names differ only in letter case are two buses (two files)
+        for v in (buses[0].upper(), buses[0].capitalize(), buses[0].swapcase()):
+            if v not in buses and v.lower() != "default":
+                buses.append(v)
+                break
     devs = draw(st.lists(can_device, min_size=1, max_size=3, unique=True)) if cfg.devices else []
     for nm in msg_names:
         n_b = draw(st.sampled_from([1, 1, 1, 2])) if cfg.alias else 1
